@@ -138,8 +138,8 @@ def run(c):
         progs.append({"par": {"win": {"A": 32768, "B": 32768}, "pkt": {"A": 4096, "B": 4096}, "tmo": {"A": "block", "B": "block"}},
                       "threads": p["threads"]})
     progs += programs(rnd, 10 if c.quick else 150)
-    deadline = time.time() + (9 if c.quick else 500)
-    explored = dc.explore_into(runs, c, progs, 25 if c.quick else 1500, 6 if c.quick else 60, deadline,
+    deadline = time.time() + (9 if c.quick else 300)
+    explored = dc.explore_into(runs, c, progs, 25 if c.quick else 250, 6 if c.quick else 40, deadline,
                                bound=1 if c.quick else 2)
     laps["explore_s"] = round(time.time() - t0 - laps["model+replay_s"], 1)
     dc.validate(c, runs, INVS, describe)
